@@ -217,6 +217,47 @@ example (q : Rat) (hq0 : 0 ≤ q) (hq1 : q ≤ 1) :
         rabs (a - (sortedInputs (4 / 3) exXs)[k]!) ≤ 1 / 2 * rabs ((sortedInputs (4 / 3) exXs)[k]!) :=
   dense_quantile_accuracy_regenerated exEnv _ _ _ exContract exXs exXs_ok exXs_32 exXs_ne exXs_len q hq0 hq1
 
+/-- the exact (sparse) sketch of `exXs`: positive bins `0 ↦ 1` (the value 3), `1 ↦ 2` (5 and 12), negative bins
+    `0 ↦ 1`, `1 ↦ 1`, two values in the zero bucket -/
+def exS0 : Sketch := ⟨some exEnv.id, .sp [(0, 1), (1, 2)], .sp [(0, 1), (1, 1)], .fin 2⟩
+
+theorem exS0_spec :
+    Sketch.addAll exEnv (Sketch.new (some exEnv.id) .sparse) (exXs.map (fun x => (x, 1))) = some exS0 := by
+  rw [DDS.new_sparse, addAll_units exEnv _ _ _ exContract exXs exXs_ok]
+  have e1 : Content.merge [] (unitPairs ((posPart (4 / 3) exXs).map (idxOf exEnv))) = [(0, 1), (1, 2)] := by
+    decide +kernel
+  have e2 : Content.merge [] (unitPairs ((negPart (4 / 3) exXs).map (idxOf exEnv))) = [(0, 1), (1, 1)] := by
+    decide +kernel
+  have e3 : addOnes (zeroCnt (4 / 3) exXs) (.fin 0) = .fin 2 := by decide +kernel
+  rw [e1, e2, e3]; rfl
+
+/-- … and the INNER guard of `collapsing_quantile_retained_regenerated` (the selected bin is at or above the edge) is
+    met non-trivially: at `q = 1` the exact sketch of `exXs` selects bin 1 of the positive side, which IS the edge
+    of a one-bin store (bin 0 has been collapsed); the regenerated collapsing sketch answers `6` with a nil error -/
+example : let g := runAdds (newLow exEnv 1) (unitAdds exXs)
+    Lift.selKey exS0 (.fin 1) = some (true, 1) ∧ Lift.edgeLow 1 [(0, 1), (1, 2)] = 1 ∧
+    DDSketch.GetValueAtQuantile g.1 (.fin 1) = (.fin 6, GoErr.nil) := by
+  intro g
+  obtain ⟨_, s₀, cp, cn, h1, h2, hq⟩ :=
+    collapsing_quantile_retained_regenerated 1 (by omega) exEnv _ _ _ exContract exXs exXs_ok exXs_32
+      exXs_ne exXs_len
+  rw [exS0_spec] at h1
+  cases h1
+  simp only [exS0, Sketch.spec, Sketch.mk.injEq, Store.sp.injEq, true_and] at h2
+  obtain ⟨rfl, rfl, _⟩ := h2
+  have hsel : Lift.selKey exS0 (.fin 1) = some (true, 1) := by decide +kernel
+  have hedge : Lift.edgeLow 1 [((0 : Int), (1 : Rat)), (1, 2)] = 1 := by decide +kernel
+  refine ⟨hsel, hedge, ?_⟩
+  have hv : exS0.quantile exEnv (.fin 1) = .ok (.fin 6) := by decide +kernel
+  have := hq (.fin 1) (by
+    intro side k h
+    rw [hsel] at h
+    cases h
+    show Lift.edgeLow 1 [((0 : Int), (1 : Rat)), (1, 2)] ≤ 1
+    rw [hedge])
+  rw [hv] at this
+  exact this
+
 end C05
 
 /-! ## C04GenPag: the store `NonVacuity.pagS` (one materialised page holding `3 ↦ 5/2`, the buffered entry `40`;
